@@ -673,6 +673,8 @@ struct TreeGen {
             return small_rat();
         if (k < 9)
             return r.pick(std::vector<RCP<const Basic>>{pi, E, EulerGamma, Catalan, GoldenRatio});
+        if (c_mode) // the C printers keep 15 significant digits (finding D19): doubles are added by the C15 generator itself
+            return small_rat();
         static const double ds[] = {0.5, 0.25, 1.5, -2.75, 0.1, 3.3, 1e-3, 12.125, -0.3, 2.0000000000000004};
         return real_double(ds[r.below(10)]);
     }
